@@ -39,7 +39,7 @@ def rand_dag(rng, nfrag):
     for i in range(1, nfrag + 1):
         sels = [fld("n", "x%d" % i)] if rng.random() < 0.5 or i == nfrag else []
         if i < nfrag:
-            k = rng.choice([1, 2, 2, 3])
+            k = rng.choice([1, 2, 2, 2, 3])
             for _ in range(k):
                 j = i + 1 if rng.random() < 0.7 else rng.randint(i + 1, nfrag)
                 used.add(j)
@@ -119,7 +119,7 @@ def body(c):
         made += 1
     ndag = 150 if c.quick else 1500
     for _ in range(ndag):
-        cases.append({"id": 0, "family": "randdag", "n": 0, "doc": rand_dag(rng, rng.randint(2, 11 if c.quick else 13))})
+        cases.append({"id": 0, "family": "randdag", "n": 0, "doc": rand_dag(rng, rng.randint(2, 13 if c.quick else 14))})
     for i, x in enumerate(cases):
         x["id"] = i + 1
     vlib.write_ndjson(c.path("cases.ndjson"), cases)
